@@ -3,7 +3,7 @@
     saveTree, loadTree). [run prims_fixed h init storage0] executes ANY history [h] of tree operations in which
     [OSave] may occur at ANY positions. *)
 From Coq Require Import NArith List.
-From VB Require Import Store.SaveLoadDefs Store.SaveLoadProofs Store.SaveLoadTheorems Store.LoadProofs Store.LoadSort.
+From VB Require Import Store.SaveLoadDefs Store.SaveLoadProofs Store.SaveLoadTheorems Store.LoadProofs Store.LoadSort Store.LoadWindow.
 Import ListNotations.
 Local Open Scope N_scope.
 
@@ -71,3 +71,19 @@ Theorem C10_reload_equiv_partial :
              forall k, pv (blocks s') k = lookup (sort_by_height live) k.
 Proof. exact reload_equiv_consistent_partial. Qed.
 Print Assumptions C10_reload_equiv_partial.
+
+(* the endorsement-recovery window of loadBlockInner (window start = max(0, height - si), a parameter of the
+   model) accepts a stored block exactly when all its endorsements satisfy the LIVE rule (distance <= si) *)
+Theorem C10_recovery_window_iff_live_rule :
+  forall si m x, recover_check (window_start si) m x = true <-> live_rule si m x.
+Proof. exact recover_check_iff_live_rule. Qed.
+Print Assumptions C10_recovery_window_iff_live_rule.
+
+(* a window shortened by one rejects an endorsement exactly at the boundary, which the live rule accepts:
+   storage written by a valid instance would fail to load *)
+Theorem C10_recovery_window_short_refuted :
+  live_rule 6 boundary_store boundary_block /\
+  recover_check (window_start 6) boundary_store boundary_block = true /\
+  recover_check (window_start_short 6) boundary_store boundary_block = false.
+Proof. exact recovery_window_short_refuted. Qed.
+Print Assumptions C10_recovery_window_short_refuted.
